@@ -39,11 +39,27 @@ Fixpoint lucky_windows (cap : nat) (st : list lmeas) (ops : list lop) : list (li
   | LDo s :: r => let st' := lucky_push cap st (meas_of s) in st' :: lucky_windows cap st' r
   end.
 
+(* a window without ties, or of at most 12 samples (insertion sort, stable): the model's value exactly;
+   a longer window with ties (pdqsort proper, modelled by contract): some choice among the tied samples *)
+Definition window_accepts (pick : nat) (w : list lmeas) (o : Z) : bool :=
+  if lucky_exact_window w then lucky_result (lucky_select pick w) =? o else lucky_accepts pick w o.
 Fixpoint accepts_all (pick : nat) (ws : list (list lmeas)) (obs : list Z) : bool :=
   match ws, obs with
   | [], [] => true
-  | w :: ws', o :: obs' => lucky_accepts pick w o && accepts_all pick ws' obs'
+  | w :: ws', o :: obs' => window_accepts pick w o && accepts_all pick ws' obs'
   | _, _ => false
+  end.
+
+Fixpoint ndo_l (ops : list lop) : nat :=
+  match ops with [] => O | LDo _ :: r => S (ndo_l r) | LReset :: r => ndo_l r end.
+Fixpoint ndo_n (ops : list nop) : nat :=
+  match ops with [] => O | NDo _ _ :: r => S (ndo_n r) | NReset _ :: r => ndo_n r end.
+Definition last_epoch (ops : list nop) : Z := fold_left (fun _ op => op_epoch op) ops 0.
+(* the suffix starts at a reset point of the filter that ran pre ++ mid *)
+Definition starts_fresh (pre mid suf : list nop) : bool :=
+  match rev mid with
+  | NReset _ :: _ => true
+  | _ => match suf with op :: _ => is_reset_point (last_epoch (pre ++ mid)%list) op | [] => true end
   end.
 
 Definition glue_C17 (k : string) (a o : list value) : option verdict :=
@@ -55,7 +71,7 @@ Definition glue_C17 (k : string) (a o : list value) : option verdict :=
         Some (functional [vbool (match lucky_new cap pick with None => true | Some _ => false end)] o
                 (Bool.eqb should (negb (pan =? 0))))
     | _, _ => None end
-  else if is k "lucky.hist" then
+  else if is k "lucky.hist" || is k "lucky.wild" then
     (* args: cap pick ops (cap = 0: the unconfigured filter); observed: the output of every Do, panicked *)
     match a, o with
     | [VZ cap; VZ pick; VL ops], [VL obs; VZ pan] =>
@@ -67,7 +83,7 @@ Definition glue_C17 (k : string) (a o : list value) : option verdict :=
             | Some f =>
                 let oracle := (pan =? 0) && C17_lucky_ok (Z.to_nat cap) (Z.to_nat pick) ops obs in
                 let ws := lucky_windows (lk_cap f) [] ops in
-                if (cap =? 0) || forallb (fun w => distinctb (map l_rtd w)) ws then
+                if (cap =? 0) || forallb lucky_exact_window ws then
                   match lucky_run f ops with
                   | Some exp => Some (functional [VL (map VZ exp); VZ 0] o oracle)
                   | None => Some (relational (negb (pan =? 0)) oracle)
@@ -76,7 +92,48 @@ Definition glue_C17 (k : string) (a o : list value) : option verdict :=
             end
         | _, _ => None end
     | _, _ => None end
-  else if is k "ntimed.hist" then
+  else if is k "lucky.reset" then
+    (* args: cap pick pre suf; a filter runs pre, Reset, suf; a new filter runs suf; observed: the outputs
+       of the suf part of the first, the outputs of the second, panicked *)
+    match a, o with
+    | [VZ cap; VZ pick; VL pre; VL suf], [VL obsA; VL obsB; VZ pan] =>
+        match lops_of pre, lops_of suf, getZs obsA, getZs obsB with
+        | Some pre, Some suf, Some obsA, Some obsB =>
+            let f := if cap =? 0 then Some lucky_zero else lucky_new cap pick in
+            match f with
+            | None => None
+            | Some f =>
+                let full := (pre ++ LReset :: suf)%list in
+                let oracle := (pan =? 0) && list_eqb Z.eqb obsA obsB && C17_lucky_ok (Z.to_nat cap) (Z.to_nat pick) suf obsB in
+                let wsA := skipn (ndo_l pre) (lucky_windows (lk_cap f) [] full) in
+                let wsB := lucky_windows (lk_cap f) [] suf in
+                if (cap =? 0) || (forallb lucky_exact_window wsA && forallb lucky_exact_window wsB) then
+                  match lucky_run f full, lucky_run f suf with
+                  | Some expA, Some expB =>
+                      Some (functional [VL (map VZ (skipn (ndo_l pre) expA)); VL (map VZ expB); VZ 0] o oracle)
+                  | _, _ => Some (relational (negb (pan =? 0)) oracle)
+                  end
+                else Some (relational ((pan =? 0) && accepts_all (lk_pick f) wsA obsA && accepts_all (lk_pick f) wsB obsB) oracle)
+            end
+        | _, _, _, _ => None end
+    | _, _ => None end
+  else if is k "ntimed.reset" then
+    (* args: pre mid suf (mid: Resets, possibly none when suf runs under another epoch); a filter runs
+       pre ++ mid ++ suf, a new filter runs suf; observed: the outputs of the suf part of the first,
+       the outputs of the second, panicked *)
+    match a, o with
+    | [VL pre; VL mid; VL suf], [VL obsA; VL obsB; VZ pan] =>
+        match nops_of pre, nops_of mid, nops_of suf, getZs obsA, getZs obsB with
+        | Some pre, Some mid, Some suf, Some obsA, Some obsB =>
+            if starts_fresh pre mid suf then
+              let expA := skipn (ndo_n (pre ++ mid)%list) (nt_run (nt_zero 0) (pre ++ mid ++ suf)%list) in
+              let expB := nt_run (nt_zero 0) suf in
+              Some (functional [VL (map VZ expA); VL (map VZ expB); VZ 0] o
+                      ((pan =? 0) && list_eqb Z.eqb obsA obsB))
+            else None
+        | _, _, _, _, _ => None end
+    | _, _ => None end
+  else if is k "ntimed.hist" || is k "ntimed.wild" then
     (* args: ops; observed: outputs of the filter, the reset points the harness
        used, outputs of new filters started at every reset point *)
     match a, o with
